@@ -245,24 +245,45 @@ def _read_file_names(ctx):
                 continue
             names.append((f"link{i}.{a}", "objects/%04x" % i if b is None else f"objects/t{i}.{b}"))
             names.append((f"plain{i}", f"objects/u{i}.{a}"))          # extension-less link to a supported file
+    # the extension decides whatever the bytes look like: every routed extension with content of other formats
+    kinds = [k for k in _CONTENTS if k != "x"]
+    for e in known + ["bin", "zzz"]:
+        for k in kinds:
+            names.append((f"c_{k}.{e}", None, k))
     return names
 
 
-def _read_file_one(stubs, td, nm, target):
+_CONTENTS = {
+    "x": b"x",
+    "rtf": b"{\\rtf1\\ansi hello\\par}",
+    "zip": b"PK\x03\x04" + b"\x14\x00" * 13,
+    "ole": b"\xd0\xcf\x11\xe0\xa1\xb1\x1a\xe1" + b"\x00" * 504,
+    "pdf": b"%PDF-1.4\n%%EOF\n",
+    "html": b"<!DOCTYPE html><html><body><p>x</p></body></html>",
+    "7z": b"7z\xbc\xaf\x27\x1c\x00\x04" + b"\x00" * 24,
+    "gz": b"\x1f\x8b\x08\x00" + b"\x00" * 16,
+    "mbox": b"From a@b Thu Jan  1 00:00:00 1970\nSubject: x\n\nbody\n",
+    "eml": b"Subject: x\nFrom: a@b\n\nbody\n",
+    "empty": b"",
+}
+
+
+def _read_file_one(stubs, td, nm, target, content="x"):
     """-> (path string handed to read_file, what read_file did, what get_extractor(path) says) with stubs installed"""
     import sharepoint2text
     from sharepoint2text.parsing import router
     from sharepoint2text.parsing.exceptions import ExtractionFileFormatNotSupportedError
     fp = os.path.join(td, nm)
     try:
+        data = _CONTENTS.get(content, b"x")
         if target is None:
             with open(fp, "wb") as fh:
-                fh.write(b"x")
+                fh.write(data)
         else:
             tp = os.path.join(td, target)
             os.makedirs(os.path.dirname(tp), exist_ok=True)
             with open(tp, "wb") as fh:
-                fh.write(b"x")
+                fh.write(data)
             if os.path.lexists(fp):
                 os.unlink(fp)
             os.symlink(tp, fp)
@@ -290,26 +311,27 @@ def _read_file_dispatch(ctx):
     with _Stubs() as stubs:
         with tempfile.TemporaryDirectory(prefix="s2t_c07_") as td:
             reqs, exp = [], []
-            for nm, target in _read_file_names(ctx):
+            for item in _read_file_names(ctx):
+                nm, target, content = (tuple(item) + ("x",))[:3]
                 if "/" in nm or "\x00" in nm or len(nm.encode("utf-8", "ignore")) > 200:
                     continue
-                r = _read_file_one(stubs, td, nm, target)
+                r = _read_file_one(stubs, td, nm, target, content)
                 if r is None:
                     continue
                 fp, got, _ = r
                 pl = fp.lower()
                 reqs.append({"op": "c07.route", "pl": pl, "mime": mimetypes.guess_type(pl)[0]})
-                exp.append((nm, target, got))
+                exp.append((nm, target, got, content))
             outs = ctx.drive(reqs)
             bad = 0
-            for (nm, target, got), o in zip(exp, outs):
-                ctx.case(("read_file", nm, target))
-                ctx.count("read_file/" + ("link/" if target else "file/") + ("routed" if not got.startswith("ERR") else "unsupported"))
+            for (nm, target, got, content), o in zip(exp, outs):
+                ctx.case(("read_file", nm, target, content))
+                ctx.count("read_file/" + ("link/" if target else ("content/" if content != "x" else "file/")) + ("routed" if not got.startswith("ERR") else "unsupported"))
                 if o.get("ext") != got:
                     bad += 1
                     if bad <= 10:
                         broken.append(Broken("correspondence", "c07.read_file", f"impl={got} model={o.get('ext')}",
-                                             case={"name": nm, "target": target}))
+                                             case={"name": nm, "target": target, "content": content}))
     return broken
 
 
@@ -319,17 +341,18 @@ def _read_file_oracle(ctx, cases):
     out = []
     with _Stubs() as stubs:
         with tempfile.TemporaryDirectory(prefix="s2t_c07_") as td:
-            for nm, target in cases:
+            for item in cases:
+                nm, target, content = (tuple(item) + ("x",))[:3]
                 if "/" in nm or "\x00" in nm:
                     continue
-                r = _read_file_one(stubs, td, nm, target)
+                r = _read_file_one(stubs, td, nm, target, content)
                 if r is None:
                     continue
                 fp, got, want = r
                 if got != want:
-                    how = f"a symlink to {target!r}" if target else "a regular file"
+                    how = f"a symlink to {target!r}" if target else f"a regular file with {content} content"
                     out.append(Violation("read_file-dispatch", f"read_file({nm!r}) ({how}) -> {got}, get_extractor({nm!r}) -> {want}",
-                                         {"name": nm, "target": target}))
+                                         {"name": nm, "target": target, "content": content}))
                     return out
     return out
 
@@ -377,7 +400,7 @@ def _oracle_violations(ctx, paths):
 
 
 def search(ctx, broken):
-    rf = [(b.case["name"], b.case.get("target")) for b in broken if b.case and "name" in b.case]
+    rf = [(b.case["name"], b.case.get("target"), b.case.get("content", "x")) for b in broken if b.case and "name" in b.case]
     if rf or any(b.name == "c07.read_file" for b in broken):
         vs = _read_file_oracle(ctx, rf + _read_file_names(ctx))
         if vs:
@@ -398,7 +421,7 @@ def search(ctx, broken):
 def replay(ctx, payload):
     rep = payload.get("replay", {})
     if "name" in rep:
-        vs = _read_file_oracle(ctx, [(rep["name"], rep.get("target"))])
+        vs = _read_file_oracle(ctx, [(rep["name"], rep.get("target"), rep.get("content", "x"))])
         return (not vs), "; ".join(v.what for v in vs) or "read_file dispatches like get_extractor on the recorded name"
     if "path" not in rep:
         return False, "replay names a broken obligation, not an input: " + payload.get("what", "")
